@@ -52,7 +52,7 @@ def main():
         res["confirmed"] = ok
         for c in checks:
             t = time.time()
-            rc, out = sh(f"./check {c} --tier quick", cwd=VERIF, env={"VERIF_REPO": wt}, timeout=3600)
+            rc, out = sh(f"./check {c} --tier quick", cwd=VERIF, env={"VERIF_REPO": wt, "VERIF_EVIDENCE_DIR": wt + "_evidence"}, timeout=3600)
             viol = [l for l in out.splitlines() if l.startswith("VIOLATION")]
             res["checks"][c] = {"exit": rc, "violations": len(viol), "first": (viol[0] if viol else ""),
                                 "detail": next((l.strip()[:400] for l in out.splitlines() if l.strip().startswith("witness=")), ""),
@@ -76,6 +76,7 @@ def main():
     finally:
         sh(f"git -C /repo worktree remove --force {wt}")
         shutil.rmtree(wt, ignore_errors=True)
+        shutil.rmtree(wt + "_evidence", ignore_errors=True)
     print(json.dumps(res, indent=1))
     return 0
 
